@@ -282,6 +282,8 @@ pub struct Violation {
     pub spec_idx: usize,
     pub summary: String,
     pub replay: Value,
+    /// The (input/script-shrunk) failing case, kept for definition shrinking.
+    pub case: Option<Case>,
 }
 
 #[derive(Default)]
@@ -437,6 +439,286 @@ pub fn oracle_selftest(prop: &dyn Prop, specs: &[(&'static str, Spec)], tier: Ti
         }
     }
     Ok(n)
+}
+
+// ---------------------------------------------------------------------------------------------
+// Definition shrinking (needs recompilation: candidates are compiled together, batch by batch)
+
+fn re_children_variants(re: &oracle::re::Re, out: &mut Vec<oracle::re::Re>) {
+    use oracle::re::Re;
+    // every tree obtained by replacing one node by one of its children
+    fn go(re: &Re, rebuild: &dyn Fn(Re) -> Re, out: &mut Vec<Re>) {
+        match re {
+            Re::Star(a) | Re::Plus(a) | Re::Opt(a) => {
+                out.push(rebuild((**a).clone()));
+                let mk: Box<dyn Fn(Re) -> Re> = match re {
+                    Re::Star(_) => Box::new(|x| rebuild(Re::Star(Box::new(x)))),
+                    Re::Plus(_) => Box::new(|x| rebuild(Re::Plus(Box::new(x)))),
+                    _ => Box::new(|x| rebuild(Re::Opt(Box::new(x)))),
+                };
+                go(a, &*mk, out);
+            }
+            Re::Cat(a, b) | Re::Alt(a, b) | Re::Diff(a, b) => {
+                out.push(rebuild((**a).clone()));
+                if !matches!(re, Re::Diff(..)) {
+                    out.push(rebuild((**b).clone()));
+                }
+                let (a2, b2) = ((**a).clone(), (**b).clone());
+                let tag = match re {
+                    Re::Cat(..) => 0,
+                    Re::Alt(..) => 1,
+                    _ => 2,
+                };
+                let mk2 = move |x: Re, y: Re| match tag {
+                    0 => Re::Cat(Box::new(x), Box::new(y)),
+                    1 => Re::Alt(Box::new(x), Box::new(y)),
+                    _ => Re::Diff(Box::new(x), Box::new(y)),
+                };
+                let b3 = b2.clone();
+                let mk_a = |x: Re| rebuild(mk2(x, b3.clone()));
+                go(a, &mk_a, out);
+                let mk_b = |y: Re| rebuild(mk2(a2.clone(), y));
+                go(b, &mk_b, out);
+            }
+            Re::Str(s) if s.chars().count() > 1 => {
+                let cs: Vec<char> = s.chars().collect();
+                out.push(rebuild(Re::Str(cs[..cs.len() - 1].iter().collect())));
+                out.push(rebuild(Re::Char(cs[0])));
+            }
+            Re::Set(items) if items.len() > 1 => {
+                for k in 0..items.len() {
+                    let mut v = items.clone();
+                    v.remove(k);
+                    out.push(rebuild(Re::Set(v)));
+                }
+            }
+            _ => {}
+        }
+    }
+    go(re, &|x| x, out);
+}
+
+fn spec_size(spec: &Spec) -> usize {
+    let mut n = 0;
+    for t in &spec.items {
+        match t {
+            oracle::spec::Top::Let(_, re) => n += 2 + re.size(),
+            oracle::spec::Top::ErrorType => n += 1,
+            oracle::spec::Top::Rule(r) => n += 2 + r.re.size() + r.ctx.as_ref().map(|c| 1 + c.size()).unwrap_or(0) + if r.kind == oracle::spec::Kind::Simple { 0 } else { 1 },
+            oracle::spec::Top::RuleSet { items, .. } => {
+                n += 2;
+                for i in items {
+                    match i {
+                        oracle::spec::Inner::Let(_, re) => n += 2 + re.size(),
+                        oracle::spec::Inner::Rule(r) => n += 2 + r.re.size() + r.ctx.as_ref().map(|c| 1 + c.size()).unwrap_or(0) + if r.kind == oracle::spec::Kind::Simple { 0 } else { 1 },
+                    }
+                }
+            }
+        }
+    }
+    n
+}
+
+/// One-step reductions of a definition (all well-formed by construction).
+fn spec_reductions(spec: &Spec) -> Vec<Spec> {
+    use oracle::spec::{Inner, Kind, ParenStyle, Top};
+    let mut out: Vec<Spec> = vec![];
+    // inline all variables
+    if spec.items.iter().any(|t| matches!(t, Top::Let(..)) || matches!(t, Top::RuleSet { items, .. } if items.iter().any(|i| matches!(i, Inner::Let(..))))) {
+        if let Ok(flat) = spec.flatten() {
+            let mut s = spec.clone();
+            let mut it = flat.sets.iter().flat_map(|x| x.rules.iter());
+            s.items.retain(|t| !matches!(t, Top::Let(..)));
+            for t in s.items.iter_mut() {
+                match t {
+                    Top::Rule(r) => {
+                        if let Some(f) = it.next() {
+                            r.re = f.re.clone();
+                            r.ctx = f.ctx.clone();
+                        }
+                    }
+                    Top::RuleSet { items, .. } => {
+                        items.retain(|i| !matches!(i, Inner::Let(..)));
+                        for i in items.iter_mut() {
+                            if let Inner::Rule(r) = i {
+                                if let Some(f) = it.next() {
+                                    r.re = f.re.clone();
+                                    r.ctx = f.ctx.clone();
+                                }
+                            }
+                        }
+                    }
+                    _ => {}
+                }
+            }
+            out.push(s);
+        }
+    }
+    if spec.paren != ParenStyle::Full {
+        let mut s = spec.clone();
+        s.paren = ParenStyle::Full;
+        out.push(s);
+    }
+    let n_rules = spec.n_rules();
+    // drop one rule
+    for k in 0..n_rules {
+        let mut s = spec.clone();
+        let mut idx = 0;
+        let mut removed = false;
+        let mut new_items = vec![];
+        for t in s.items.into_iter() {
+            match t {
+                Top::Rule(r) => {
+                    if idx == k {
+                        removed = true;
+                    } else {
+                        new_items.push(Top::Rule(r));
+                    }
+                    idx += 1;
+                }
+                Top::RuleSet { name, items } => {
+                    let mut ni = vec![];
+                    for i in items {
+                        match i {
+                            Inner::Rule(r) => {
+                                if idx == k {
+                                    removed = true;
+                                } else {
+                                    ni.push(Inner::Rule(r));
+                                }
+                                idx += 1;
+                            }
+                            other => ni.push(other),
+                        }
+                    }
+                    new_items.push(Top::RuleSet { name, items: ni });
+                }
+                other => new_items.push(other),
+            }
+        }
+        s.items = new_items;
+        if removed && s.n_rules() >= 1 {
+            out.push(s);
+        }
+    }
+    // per rule: drop the context, simplify the kind, replace a node by a child
+    for k in 0..n_rules {
+        let base_rule = spec.rules()[k].clone();
+        if base_rule.ctx.is_some() {
+            let mut s = spec.clone();
+            s.rules_mut()[k].ctx = None;
+            out.push(s);
+        }
+        if base_rule.kind != Kind::Simple && !base_rule.kind.uses_switch() {
+            let mut s = spec.clone();
+            s.rules_mut()[k].kind = Kind::Simple;
+            out.push(s);
+        }
+        if base_rule.re.has_var() || base_rule.ctx.as_ref().map(|c| c.has_var()).unwrap_or(false) {
+            continue;
+        }
+        let mut vs = vec![];
+        re_children_variants(&base_rule.re, &mut vs);
+        for v in vs {
+            if v.class().map(|c| c.is_empty()).unwrap_or(false) {
+                continue;
+            }
+            let mut s = spec.clone();
+            s.rules_mut()[k].re = oracle::gen::fix_nullable(v, 'a');
+            out.push(s);
+        }
+        if let Some(c) = &base_rule.ctx {
+            let mut vs = vec![];
+            re_children_variants(c, &mut vs);
+            for v in vs {
+                if v.class().map(|c| c.is_empty()).unwrap_or(false) {
+                    continue;
+                }
+                let mut s = spec.clone();
+                s.rules_mut()[k].ctx = Some(v);
+                out.push(s);
+            }
+        }
+    }
+    let mut seen = HashSet::new();
+    out.retain(|s| s != spec && seen.insert(serde_json::to_string(s).unwrap()));
+    out.sort_by_key(spec_size);
+    out.truncate(64);
+    out
+}
+
+/// Greedy delta debugging on the definition; returns the smallest failing (definition, case,
+/// reason, replay JSON) found within the round budget.
+pub fn shrink_spec(prop: &dyn Prop, pname: &'static str, spec: Spec, case: Case, rounds: usize) -> Option<(Spec, Case, String, Value)> {
+    let mut cur = (spec, case);
+    let mut best: Option<(Spec, Case, String, Value)> = None;
+    for round in 0..rounds {
+        let cands = spec_reductions(&cur.0);
+        if cands.is_empty() {
+            break;
+        }
+        let named: Vec<(&'static str, Spec)> = cands.into_iter().map(|s| (pname, s)).collect();
+        let prep = prepare(&format!("shrink_{}", prop.id().to_lowercase()), named);
+        let found: Mutex<Vec<(usize, Spec, Case, String, Value)>> = Mutex::new(vec![]);
+        std::thread::scope(|sc| {
+            for bin in &prep.build.bins {
+                let found = &found;
+                let prep = &prep;
+                let cur_case = &cur.1;
+                sc.spawn(move || {
+                    let mut server = Server::new(&bin.path, prop.per_case_timeout_ms());
+                    for (lexer_idx, &si) in bin.specs.iter().enumerate() {
+                        let spec = &prep.specs[si].1;
+                        let (ctx, mut comp) = match make_ctx(si, pname, spec.clone()) {
+                            Some(x) => x,
+                            None => continue,
+                        };
+                        let mut eval = |server: &mut Server, comp: &mut Compiled, base: &Case| -> (Verdict, Vec<ModelOut>, Vec<Outcome>) {
+                            let vars = prop.variants(base);
+                            let refs: Vec<&Case> = vars.iter().collect();
+                            let outs = server.run(lexer_idx as u32, &refs);
+                            let models: Vec<ModelOut> = vars.iter().map(|c| run_model(comp, c)).collect();
+                            (prop.judge(&ctx, &vars, &models, &outs), models, outs)
+                        };
+                        // the known failing case first, then a small fresh search
+                        let mut failing: Option<Case> = None;
+                        if let (Verdict::Bad(_), _, _) = eval(&mut server, &mut comp, cur_case) {
+                            failing = Some(cur_case.clone());
+                        } else {
+                            let mut r = runner(seed(), &format!("{}-shrink-{}-{}", prop.id(), round, si));
+                            let cases = prop.cases(&ctx, &mut comp, &mut r, Tier::Quick);
+                            for c in cases.iter().take(4000) {
+                                if c.input.len() > 200 {
+                                    continue;
+                                }
+                                if let (Verdict::Bad(_), _, _) = eval(&mut server, &mut comp, c) {
+                                    failing = Some(c.clone());
+                                    break;
+                                }
+                            }
+                        }
+                        if let Some(f) = failing {
+                            let small = shrink_case(f, |c| matches!(eval(&mut server, &mut comp, c).0, Verdict::Bad(_)));
+                            if let (Verdict::Bad(reason), models, outs) = eval(&mut server, &mut comp, &small) {
+                                let rp = replay_json(prop.id(), &ctx, &small, &reason, &models[0].trace, &outs[0]);
+                                found.lock().unwrap().push((spec_size(spec), spec.clone(), small, reason, rp));
+                            }
+                        }
+                    }
+                });
+            }
+        });
+        let mut found = found.into_inner().unwrap();
+        found.sort_by(|a, b| (a.0, a.2.input.len(), serde_json::to_string(&a.1).unwrap()).cmp(&(b.0, b.2.input.len(), serde_json::to_string(&b.1).unwrap())));
+        match found.into_iter().next() {
+            Some((_, s, c, reason, rp)) => {
+                cur = (s.clone(), c.clone());
+                best = Some((s, c, reason, rp));
+            }
+            None => break,
+        }
+    }
+    best
 }
 
 pub struct Prepared {
@@ -620,6 +902,7 @@ pub fn run_collect(prop: &dyn Prop, tier: Tier) -> (Evidence, i32) {
                                             pipe::trunc(&reason2, 400), pipe::trunc(&shrunk.input, 80), shrunk.script
                                         ),
                                         replay: rp,
+                                        case: Some(shrunk.clone()),
                                     });
                                     violated = true;
                                     break;
@@ -688,6 +971,7 @@ pub fn run_collect(prop: &dyn Prop, tier: Tier) -> (Evidence, i32) {
                                 spec_idx: si,
                                 summary: format!("(found by the coverage-guided stage) {} | input {:?} script {:?}", pipe::trunc(&reason, 300), case.input, case.script),
                                 replay: replay_json(prop.id(), &ctx, case, &format!("{} [libFuzzer: {}]", reason, pipe::trunc(msg, 200)), &models[0].trace, &outs[0]),
+                                case: Some(case.clone()),
                             });
                         }
                     }
@@ -700,6 +984,25 @@ pub fn run_collect(prop: &dyn Prop, tier: Tier) -> (Evidence, i32) {
     }
     t.violations.sort_by_key(|v| v.spec_idx);
     let mut n_viol = 0;
+    // Shrink the definition of the first violation (bounded: up to 6 rounds of recompilation).
+    if let Some(v) = t.violations.first_mut() {
+        if let Some(case) = v.case.clone() {
+            let (pname, spec) = prep.specs[v.spec_idx].clone();
+            let t0 = std::time::Instant::now();
+            if let Some((s2, c2, reason, rp)) = shrink_spec(prop, pname, spec, case, 6) {
+                let mut rp = rp;
+                rp["shrunk_from"] = json!({"lexer_source": prep.specs[v.spec_idx].1.print_macro("Lexer"), "original_summary": v.summary, "shrink_secs": t0.elapsed().as_secs_f64()});
+                v.summary = format!(
+                    "{} | input {:?} script {:?} | definition shrunk to {} rule(s)",
+                    pipe::trunc(&reason, 400),
+                    pipe::trunc(&c2.input, 80),
+                    c2.script,
+                    s2.n_rules()
+                );
+                v.replay = rp;
+            }
+        }
+    }
     for v in t.violations.iter().take(5) {
         let path = write_replay(prop.id(), &v.replay);
         report_violation(prop.id(), &path, &v.summary);
